@@ -503,6 +503,132 @@ def r13_3(ctx, counts: dict[str, int]) -> RuleResult:
     return res
 
 
+def r13_6(ctx, counts: dict[str, int]) -> RuleResult:
+    """Laws of the representation positive ∪ ¬negative."""
+    from ..engine.cfg import CFG
+    from ..engine.dataflow import branch_facts
+    model = ctx.model
+    res = RuleResult(
+        'R13.6', 'CLASS-REPRESENTATION-LAWS',
+        'CharacterClass denotes positive ∪ ¬negative (the second part only when negative is '
+        'non-empty). Three identities of that representation are checked on the methods of the '
+        'class. (a) UNION OF COMPLEMENTS: ¬N ∪ ¬X = ¬(N ∩ X), so in the code that adds a negated '
+        'escape an in-place union `self.negative |= X` / `.update(X)` is legal only where '
+        'negative is established empty (branch fact); with a non-empty negative the new set must '
+        'be intersected ([\\D\\S] is every character, not [^\\d\\s]). (b) COMPLEMENT: '
+        '¬(P ∪ ¬N) = N − P; exchanging the two parts is the complement only if one of them is '
+        'empty, so a swap `self.positive, self.negative = self.negative, self.positive` is '
+        'dominated by a fact that one part is empty ([^\\Da] is the digits, not "digits or not '
+        'a"). (c) REMOVAL: (P ∪ ¬N) − X = (P − X) ∪ ¬(N ∪ X); in discard every path that removes '
+        'X from positive also adds X to negative when negative is non-empty (otherwise the '
+        'member removed from one part is still admitted by the other).')
+    cls = model.find_class('CharacterClass')
+    n = 0
+    # (a) unions into self.negative in the adding code
+    for name, m in sorted(cls.methods.items()):
+        if not (name == 'add' or name.startswith('_add')):
+            continue
+        cfg = CFG(m.node)
+        facts = branch_facts(cfg)
+        for nd in cfg.nodes:
+            a = nd.ast
+            if nd.kind != 'stmt':
+                continue
+            union = (isinstance(a, ast.AugAssign) and isinstance(a.op, ast.BitOr)
+                     and dotted(a.target) == 'self.negative') or \
+                    (isinstance(a, ast.Expr) and isinstance(a.value, ast.Call)
+                     and stmt_text(a.value.func) == 'self.negative.update')
+            if not union:
+                continue
+            n += 1
+            empty = '-self.negative' in facts[nd.id]
+            res.instances.append(f'{m.key}: `{stmt_text(a)[:50]}` negative established empty='
+                                 f'{empty}')
+            if empty:
+                res.ok()
+            else:
+                res.fail(finding('R13.6', m, a, 'union into a non-empty negative part',
+                                 f'`{stmt_text(a)[:50]}` unites the new negated set with the '
+                                 f'negated sets already in the class: ¬N ∪ ¬X is ¬(N ∩ X), the '
+                                 f'union gives ¬(N ∪ X) ([\\D\\S] does not match "5")'))
+    # (b) swaps
+    for name, m in sorted(cls.methods.items()):
+        cfg = CFG(m.node)
+        facts = branch_facts(cfg)
+        for nd in cfg.nodes:
+            a = nd.ast
+            if nd.kind == 'stmt' and isinstance(a, ast.Assign) and len(a.targets) == 1 \
+                    and isinstance(a.targets[0], ast.Tuple) and isinstance(a.value, ast.Tuple) \
+                    and [dotted(t) for t in a.targets[0].elts] == ['self.positive', 'self.negative'] \
+                    and [dotted(t) for t in a.value.elts] == ['self.negative', 'self.positive']:
+                n += 1
+                one_empty = bool({'-self.negative', '-self.positive'} & set(facts[nd.id]))
+                res.instances.append(f'{m.key}: swap of the two parts, one part established '
+                                     f'empty={one_empty}')
+                if one_empty:
+                    res.ok()
+                else:
+                    res.fail(finding('R13.6', m, a, 'swap with both parts non-empty',
+                                     f'{m.name} exchanges positive and negative where both may '
+                                     f'be non-empty: the complement of P ∪ ¬N is N − P, the swap '
+                                     f'gives N ∪ ¬P ([^\\Da] matches "b")'))
+    # (c) removals in discard
+    for name, m in sorted(cls.methods.items()):
+        if not (name == 'discard' or name.startswith('_discard')):
+            continue
+        cfg = CFG(m.node)
+
+        def removed_operand(a: ast.AST) -> Optional[str]:
+            if isinstance(a, ast.AugAssign) and isinstance(a.op, ast.Sub) \
+                    and dotted(a.target) == 'self.positive':
+                return stmt_text(a.value)
+            if isinstance(a, ast.Expr) and isinstance(a.value, ast.Call) \
+                    and stmt_text(a.value.func) == 'self.positive.difference_update' \
+                    and a.value.args:
+                return stmt_text(a.value.args[0])
+            return None
+        for nd in cfg.nodes:
+            if nd.kind != 'stmt':
+                continue
+            x = removed_operand(nd.ast)
+            if x is None:
+                continue
+            n += 1
+
+            def adds(q, x=x) -> bool:
+                b = q.ast
+                if isinstance(b, ast.AugAssign) and isinstance(b.op, ast.BitOr) \
+                        and dotted(b.target) == 'self.negative' and stmt_text(b.value) == x:
+                    return True
+                return isinstance(b, ast.Expr) and isinstance(b.value, ast.Call) \
+                    and stmt_text(b.value.func) == 'self.negative.update' \
+                    and bool(b.value.args) and stmt_text(b.value.args[0]) == x
+
+            def edge_ok(q, label: str) -> bool:
+                # the false edge of `if self.negative` needs no transfer
+                return not (q.kind == 'test' and label == 'false' and q.ast is not None
+                            and stmt_text(q.ast) == 'self.negative')
+            goal = [q for q in cfg.nodes if q is cfg.exit or
+                    (q.kind == 'stmt' and q is not nd and removed_operand(q.ast) is not None)
+                    or (q.kind in ('loop', 'test') and isinstance(q.ast, ast.For))]
+            p = cfg.path_avoiding([nd], lambda q: any(q is g for g in goal), adds,
+                                  edge_ok=edge_ok)
+            res.instances.append(f'{m.key}: `{stmt_text(nd.ast)[:50]}` followed by the transfer '
+                                 f'to negative on every path={p is None}')
+            if p is None:
+                res.ok()
+            else:
+                res.fail(finding('R13.6', m, nd.ast, f'removal of {x[:20]} not mirrored',
+                                 f'`{stmt_text(nd.ast)[:50]}` removes the members from the '
+                                 f'positive part only: when the class also has a negated part, '
+                                 f'¬negative still admits them (CharacterClass("\\D").discard("a") '
+                                 f'still contains "a")'))
+    counts['class_law_sites'] = n
+    if n < 3:
+        raise AnalysisError(f'only {n} representation-law sites located in CharacterClass')
+    return res
+
+
 SHARED_TABLE_CALLS = {'unicode_category', 'unicode_block', 'unicode_subset'}
 
 
@@ -519,13 +645,48 @@ def r13_4(ctx, counts: dict[str, int]) -> RuleResult:
         'UnicodeSubset(shared), list(shared)). Otherwise a later in-place operation on the '
         'instance edits the installed table for the rest of the process.')
     n = 0
+
+    def _shared_arg(e: ast.expr, local_escapes: set[str]) -> bool:
+        if isinstance(e, ast.Call):
+            d = dotted(e.func).split('.')[-1]
+            if d in SHARED_TABLE_CALLS:
+                return True
+            if isinstance(e.func, ast.Name) and e.func.id in local_escapes and not e.args:
+                return True
+            if isinstance(e.func, ast.Subscript) and dotted(e.func.value) == 'CHARACTER_ESCAPES':
+                return True
+        return False
+    # one level of helper methods: parameters that receive a shared table at a call site
+    # `self.<method>(…)` of the same class
+    shared_params: dict[tuple[str, str], set[str]] = {}
+    for g in model.all_functions():
+        if not g.module.name.startswith('elementpath.regex') or g.cls is None:
+            continue
+        esc = {t.id for st in walk_local(g.node) if isinstance(st, ast.Assign)
+               and isinstance(st.value, ast.Subscript)
+               and dotted(st.value.value) == 'CHARACTER_ESCAPES'
+               for t in st.targets if isinstance(t, ast.Name)}
+        tabs = {t.id for st in walk_local(g.node) if isinstance(st, ast.Assign)
+                and _shared_arg(st.value, esc) for t in st.targets if isinstance(t, ast.Name)}
+        for c in walk_local(g.node):
+            if isinstance(c, ast.Call) and isinstance(c.func, ast.Attribute) \
+                    and dotted(c.func.value) == 'self':
+                callee = g.cls.find_method(c.func.attr)
+                if callee is None:
+                    continue
+                ps = callee.params()[1:]
+                for i, a in enumerate(c.args):
+                    if i < len(ps) and (_shared_arg(a, esc)
+                                        or (isinstance(a, ast.Name) and a.id in tabs)):
+                        shared_params.setdefault((callee.key, ''), set()).add(ps[i])
     for f in sorted(model.all_functions(), key=lambda q: q.key):
         if not f.module.name.startswith('elementpath.regex') or f.cls is None:
             continue
         params = f.params()
         if not params or params[0] != 'self':
             continue
-        shared: set[str] = set()
+        shared: set[str] = set(shared_params.get((f.key, ''), set()))
+        top_level = {id(st) for st in f.node.body}
 
         def is_shared(e: ast.expr) -> bool:
             if isinstance(e, ast.Name):
@@ -554,8 +715,8 @@ def r13_4(ctx, counts: dict[str, int]) -> RuleResult:
                 if isinstance(t, ast.Name):
                     if is_shared(st.value):
                         shared.add(t.id)
-                    else:
-                        shared.discard(t.id)
+                    elif id(st) in top_level:
+                        shared.discard(t.id)    # an unconditional redefinition
         for st in walk_local(f.node):
             if isinstance(st, (ast.Assign, ast.AnnAssign)) and st.value is not None:
                 tgts = st.targets if isinstance(st, ast.Assign) else [st.target]
@@ -580,7 +741,8 @@ def r13_4(ctx, counts: dict[str, int]) -> RuleResult:
 
 def run(ctx) -> dict:
     counts: dict[str, int] = {}
-    results = [r13_1(ctx, counts), r13_2(ctx, counts), r13_3(ctx, counts), r13_4(ctx, counts)]
+    results = [r13_1(ctx, counts), r13_2(ctx, counts), r13_3(ctx, counts), r13_4(ctx, counts),
+               r13_6(ctx, counts)]
     # the run-length builders of the category tables (fallback for Unicode versions without a
     # generated table, and the UnicodeData.txt loader) treat major and minor categories with
     # cloned blocks: the clones must be consistent
